@@ -119,8 +119,12 @@ def classify(failure, op, ls, shadow):
 
 def run_history(rng, counters, digests, samples, violations, known, spec, layered, nops):
     import os
+    # one world in five uses integer keys whose refs collide in hash (-1 / -2, 0 / 2**61-1) for sibling locations
+    tw = rng.random() < 0.2
+    if tw:
+        counters["worlds_with_hash_colliding_sibling_keys"] = counters.get("worlds_with_hash_colliding_sibling_keys", 0) + 1
     hg = gen.HistoryGen(rng, layered=layered, depth=rng.choice([2, 3, 3, 4]),
-                        profile="full" if layered else "safe",
+                        profile="full" if layered else "safe", world=gen.make_world(rng, layered, twins=True) if tw else None,
                         weights={"ftask": 0.0, "knob": 0.0} if os.environ.get("VERIF_C01_NO_TASKS") else None)
     ls = lockstep.LockStep(hg.world)
     ran_tasks = 0
